@@ -91,6 +91,7 @@ func (c04) Gen(seed int64, tier string, avoid []string) *Plan {
 		if avoidSet["c04-late-send"] {
 			lateP = 0
 		}
+		dupP := pick(r, 0, 0, 30, 150)
 		var sent []uint16
 		var held []c04Op
 		for i := 0; i < n; i++ {
@@ -116,6 +117,12 @@ func (c04) Gen(seed int64, tier string, avoid []string) *Plan {
 			}
 			ops = append(ops, o)
 			sent = append(sent, o.Seq)
+			if chance(r, dupP) {
+				// the application sends the very same packet again (nothing newer in between)
+				d := o
+				d.AtUs = at + 5
+				ops = append(ops, d)
+			}
 			if len(held) > 0 && chance(r, 400) {
 				h := held[0]
 				held = held[1:]
